@@ -203,7 +203,11 @@ func genC12(r *Rand, nvar int) *VariantCase {
 	for i := 0; i < 3; i++ {
 		strs.Items = append(strs.Items, strItem(Pick(r, c05Strings)), numItem(int64(r.Intn(256)), r.Intn(2)))
 	}
-	p.Stmts = append(p.Stmts[:n-1], strs, PStmt{K: "global", Text: "_g1, _g2"}, p.Stmts[n-1])
+	// name lists of one to four names (every comma of a list is a gap of its own)
+	p.Stmts = append(p.Stmts[:n-1], strs, PStmt{K: "global", Text: Pick(r, []string{"_g1, _g2", "_g1", "_g1, _g2, _g3", "_g1, _g2, _g3, _g4"})}, p.Stmts[n-1])
+	if r.Chance(1, 3) {
+		p.Stmts = append(p.Stmts[:n-1:n-1], append([]PStmt{{K: "extern", Text: Pick(r, []string{"_e1, _e2, _e3", "_e1, _e2", "_e1, _e2, _e3, _e4, _e5"})}}, p.Stmts[n-1:]...)...)
+	}
 	switch r.Intn(4) {
 	case 0:
 		// the file ends in an instruction without operands (a grammar rule of its own), in a data statement, or in a directive
